@@ -8,6 +8,36 @@ import numpy
 import coqemit as E
 
 ID = "C03"
+LEVEL_TEXT = ("Coq theorems over an executable model of the labelled dense matrices (one per-axis model instantiated for 13 classes): "
+              "every select/delete/remove/reorder/sort/group/ungroup (all classes incl. both axes of the square ones) and every "
+              "adjoin/append/insert/incorp along a one-axis kind refines the same list operation on the entity list of its axis for the "
+              "cells and for every label array (arbitrary labellings, so duplicates are covered; no label array is lost), for every "
+              "history of the unary operations; group metadata are a true contiguous partition after group_<axis> and 'grouped => partition' "
+              "is an invariant of every history of all 12 operation kinds; generic form = axis-specific form and the dispatch/metadata-reset "
+              "tables regenerated from the source by ast satisfy the model's tables; mutating = non-mutating counterpart; three refutations "
+              "(scalar-index insert on an inner axis, one-axis insert of square matrices, label loss in DenseSquareTaxaTraitMatrix). "
+              "The model is tied to the code by evaluating whole operation histories inside Coq against the implementation's state after "
+              "every step, plus an independent entity-tracing predicate")
+LEVEL_NOTE = ("trusted: Coq kernel + vm_compute; the hand-written model of numpy.take/delete/insert/append/concatenate/lexsort/unique "
+              "(index plans + gather), validated only differentially on the generated histories; the two ast translators; the harness "
+              "encoding of label values as integers (names <-> codes, k/8 floats, bools) and the rounding of DenseBreedingValueMatrix.unscale(); "
+              "not proved: concat refinement, block-diagonal adjoin of the square classes, masked-genotyping metadata (all three are covered "
+              "by the correspondence and the predicate only); DenseBreedingValueMatrix is observed through unscale() and only along the taxa axis "
+              "(scaling is C15); DenseCoancestryMatrix is abstract and exercised through DenseMolecularCoancestryMatrix")
+TECHNIQUE = "Coq proof (refinement to entity lists, invariants over histories) over an executable model; in-Coq vm_compute correspondence of operation histories; ast translation validation"
+RULE = ("case = (class, initial matrix given by entity ids per axis + which label arrays exist, operation history, label table); one PRNG; "
+        "60 (thorough 300) histories of 1..12 (1..40) operations per class for 13 classes plus 30 (400) grouped->genotyping histories; axis lengths 1..5, "
+        "operands 1..3 entities, labels drawn with duplicates or unique, label arrays all/none/random present, index arguments int/slice/list/ndarray/mask "
+        "incl. negative and duplicated indices, operands passed as matrix / ndarray+keywords / bare ndarray, both forms of every operation, ~7% "
+        "deliberately invalid arguments (out-of-range, wrong axis, missing required array); non-trivial = >= 2 executed steps of which one changes a "
+        "label array with >= 2 distinct values; distinct by SHA-256 of the case")
+TRUSTED = ["numpy primitives are modelled (plan + gather) and compared with the implementation only on generated inputs",
+           "label values are shipped as integer codes (names 't007' <-> 7, floats k/8 <-> k, bools <-> 0/1, None <-> -1)",
+           "DenseBreedingValueMatrix cells are observed as unscale() rounded to the nearest integer when within 2^-20 relative",
+           "harness/translate/c03_dispatch.py and c03_metareset.py (ast -> Coq tables, fail closed)"]
+ASSUMPTIONS = ["valid arguments: indices within range, one label array per field the matrix carries (name arrays may be absent: filled with None), "
+               "operands share the entities of the other axes",
+               "cells are integers (int8 0..2 for genotype matrices, exact in float64 otherwise); label codes are non-negative"]
 PROPS = "Props/C03.v"
 IMPORTS = "From PV Require Import Lib.Common Model.C03_LMat."
 SHARD = 40
@@ -847,7 +877,7 @@ class _Gen:
     def __init__(self, rng, clsname, nops, tier):
         self.rng = rng; self.C = CLASSES[clsname]; self.nops = nops; self.tier = tier
         self.tab = {k: {} for k in ("taxa", "vrnt", "trait")}
-        self.mode = rng.choice(["dup", "dup", "unique"])
+        self.mode = rng.choice(["dup", "unique", "unique"])
         self.norigin = 1
     def ensure(self, kind, ids):
         if kind in self.tab:
@@ -864,8 +894,8 @@ class _Gen:
     def init(self):
         C, r = self.C, self.rng
         ents = {n: list(range(self.size(n))) for n in dict.fromkeys(free_names(C))}
-        pat = r.choice(["all", "none", "rand", "rand", "rand"])
-        present = {f: (pat == "all" or (pat == "rand" and r.random() < 0.65)) for f in fields_of(C)}
+        pat = r.choice(["all", "all", "all", "none", "rand", "rand", "rand", "rand"])
+        present = {f: (pat == "all" or (pat == "rand" and r.random() < 0.7)) for f in fields_of(C)}
         for k in C["kinds"]: self.ensure(k, ents.get(k, []))
         return {"ents": ents, "present": present}
     def fresh(self, kind, k):
@@ -1063,14 +1093,67 @@ def gen_history(rng, clsname, nops, tier):
     case["tab"] = G.tab
     return case
 
+def gen_geno_case(rng, nops):
+    """grouped phased genotype matrix -> (masked) genotyping: the metadata of the masked result is the subject"""
+    G = _Gen(rng, "DensePhasedGenotypeMatrix", nops, "quick")
+    C = G.C
+    nv = rng.choice([1, 2, 3, 4, 5, 6]); nt = rng.choice([1, 2, 3])
+    ents = {"phase": list(range(rng.choice([1, 2, 3]))), "taxa": list(range(nt)), "vrnt": list(range(nv))}
+    present = {f: rng.random() < 0.5 for f in fields_of(C)}
+    present["vrnt_chrgrp"] = True; present["vrnt_phypos"] = rng.random() < 0.8; present["vrnt_mask"] = rng.random() < 0.85
+    present["taxa_grp"] = rng.random() < 0.7
+    for k in C["kinds"]: G.ensure(k, ents.get(k, []))
+    mode = rng.random()
+    if present["vrnt_mask"] and mode < 0.5:                     # mask out whole chromosomes / all / none
+        dead = rng.choice([1, 2, 3, 0, -1])
+        for e in ents["vrnt"]:
+            lab = G.tab["vrnt"][str(e)]
+            lab[8] = 1 if dead == 0 else (0 if dead == -1 else int(lab[0] != dead))
+    init = {"ents": ents, "present": present}
+    case = {"cls": "DensePhasedGenotypeMatrix", "init": init, "ops": []}
+    S = spec_init(C, G.tab, init)
+    ops = []
+    if rng.random() < 0.3:
+        p = list(range(nv)); rng.shuffle(p)
+        ops.append({"k": "reorder", "ax": "vrnt", "form": "s", "gax": 2, "idx": p, "ik": "array"})
+    if rng.random() < 0.9: ops.append({"k": "group", "ax": "vrnt", "form": rng.choice(["s", "g"]), "gax": rng.choice([2, -1])})
+    if present["taxa_grp"] and rng.random() < 0.5: ops.append({"k": "group", "ax": "taxa", "form": rng.choice(["s", "g"]), "gax": rng.choice([1, -2])})
+    if rng.random() < 0.25 and nt > 1:
+        ops.append({"k": "remove", "ax": "taxa", "form": "s", "gax": 1, "obj": {"t": "int", "v": rng.randrange(-nt, nt)}})
+    ops.append({"k": "genotype", "prot": rng.choice(["masked_phased", "masked_unphased", "masked_phased", "masked_unphased", "unphased"]),
+                "invert": rng.random() < 0.35})
+    for op in ops:
+        Cc = CLASSES[S["cls"]]
+        case["ops"].append(op)
+        try:
+            S, _ = spec_step(Cc, G.tab, S, op)
+        except Invalid:
+            break
+    # continue on the result with layout operations that keep the entities
+    for _ in range(rng.choice([0, 0, 1, 2])):
+        Cc = CLASSES[S["cls"]]
+        G.C = Cc
+        if any(len(S["ents"][n_]) == 0 for n_ in free_names(Cc)): break
+        cand = G.one_op(S, last=False)
+        if cand is None or cand["k"] == "genotype" or not cand.pop("_valid", True): break
+        try:
+            T, _ = spec_step(Cc, G.tab, S, cand)
+        except Invalid:
+            break
+        case["ops"].append(cand); S = T
+    case["tab"] = G.tab
+    return case
+
 def gen_cases(rng, tier):
     cases = []
-    per = 22 if tier == "quick" else 260
+    per = 60 if tier == "quick" else 300
     maxops = 12 if tier == "quick" else 40
     for cn in CLS_ORDER:
         for j in range(per):
             nops = rng.choice([1, 2, 3, 4, 6, 8, maxops]) if j % 3 else rng.randint(1, maxops)
             cases.append(gen_history(rng, cn, nops, tier))
+    for j in range(30 if tier == "quick" else 400):
+        cases.append(gen_geno_case(rng, 4))
     return cases
 
 def search_cases(rng):
